@@ -1,4 +1,5 @@
 import Ccp.Proofs.IosStanza
+import Ccp.Props.C15
 namespace Ccp.Ios
 open Ccp.Py Ccp.Tree
 
@@ -362,5 +363,72 @@ theorem trunkVlansAllowed_stanza (st : Stanza d others kids) (hdr : Str)
     · intro h; rw [hgo, h]; exact applyVDict_none
     · intro ps hne h; rw [hgo, h]; exact applyVDict_list ps hne
 end
+
+/-! ### the interface line: `port_type`, `ordinal_list` -/
+
+theorem kInterface_chars : kInterface = ['i', 'n', 't', 'e', 'r', 'f', 'a', 'c', 'e'] := by decide
+
+/-- the header with a one-word name -/
+theorem hdr1_eq (s : Str) : line [] [kInterface, s] = kInterface ++ ' ' :: s := by
+  simp [line, join]
+
+theorem isIntf_hdr (c : Char) (r : Str) (hc : isSpace c = false) (rest : Str) :
+    isIntf (kInterface ++ ' ' :: c :: r ++ rest) = some true := by
+  have : c ≠ ' ' := by intro e; subst e; revert hc; decide
+  simp [isIntf, kInterface_chars, this]
+
+theorem wordsOf_hdr1 (s : Str) (hs : Word s) : wordsOf (line [] [kInterface, s]) = [kInterface, s] := by
+  unfold wordsOf
+  rw [lex_line [] _ (by simp) (by
+    intro x hx; simp at hx; rcases hx with rfl | rfl
+    · exact word_kw (by decide)
+    · exact hs), map_fst_toksOf]
+
+/-- `ordinal_list` of `interface <name>`: the components C15's parser reads from the name,
+`-1` for an absent one and for the class word -/
+theorem ordinalList_hdr (s : Str) (hs : Word s) (i : Intf.Intf) (hp : Intf.parse s = .ok i) :
+    ordinalList (line [] [kInterface, s]) =
+      some [optI i.slot, optI i.card, Int.ofNat i.port, optI i.sub, optI i.chan, -1] := by
+  obtain ⟨hne, hsp⟩ := hs
+  cases s with
+  | nil => exact absurd rfl hne
+  | cons c r =>
+    have hint : isIntf (line [] [kInterface, c :: r]) = some true := by
+      rw [hdr1_eq]
+      simpa using isIntf_hdr c r (hsp c (by simp)) []
+    unfold ordinalList
+    rw [hint, wordsOf_hdr1 _ ⟨hne, hsp⟩]
+    simp [hp]
+
+theorem alphaHyphen_not_space (c : Char) (h : isAlphaHyphen c = true) : isSpace c = false := by
+  have : ∀ k : Fin 123, 45 ≤ k.val → Gen.whitespace.contains k.val = false := by decide
+  unfold isAlphaHyphen at h
+  have hb : 45 ≤ c.toNat ∧ c.toNat < 123 := by
+    simp only [Bool.or_eq_true, Bool.and_eq_true, decide_eq_true_eq] at h
+    rcases h with (h | h) | h
+    · omega
+    · omega
+    · subst h; decide
+  exact this ⟨c.toNat, hb.2⟩ hb.1
+
+/-- `port_type` of `interface <prefix><number part> …`: the prefix, when it is a non-empty run of
+letters / hyphens and what follows starts with no letter or hyphen (a digit) -/
+theorem portType_hdr (p rest : Str) (hp : p ≠ []) (hpc : ∀ c ∈ p, isAlphaHyphen c = true)
+    (hr : ∀ c, rest.head? = some c → isAlphaHyphen c = false) :
+    portType (kInterface ++ ' ' :: p ++ rest) = p := by
+  cases p with
+  | nil => exact absurd rfl hp
+  | cons c p' =>
+    have hc : isSpace c = false := alphaHyphen_not_space c (hpc c (by simp))
+    have h1 : afterInterface (kInterface ++ ' ' :: (c :: p') ++ rest) = some ((c :: p') ++ rest) := by
+      have hsp : isSpace ' ' = true := by decide
+      simp [afterInterface, kInterface_chars, List.isPrefixOf, hsp, List.dropWhile, hc]
+    unfold portType
+    rw [h1]
+    show List.takeWhile isAlphaHyphen ((c :: p') ++ rest) = c :: p'
+    rw [List.takeWhile_append_of_pos hpc]
+    cases rest with
+    | nil => simp
+    | cons x xs => simp [List.takeWhile, hr x rfl]
 
 end Ccp.Ios
